@@ -14,7 +14,7 @@ import os
 from engine import core, tla
 
 LEVEL = 'model_checking'
-INVS = ['TypeOK', 'InvAvailable', 'InvIdentity', 'InvOrder', 'InvNoHistory']
+INVS = ['TypeOK', 'InvAvailable', 'InvIdentity', 'InvOrder', 'InvNoHistory', 'InvUnion']
 BASE = 'http://h/d/'
 VERSIONS = ('2.0', '3.0', '3.1')
 
@@ -31,6 +31,13 @@ def expr_of(q):
         other = spell({'abs': 'rel', 'rel': 'dotdot', 'dotdot': 'abs'}[sp], u)
         return {'available': f'doc-available("{s}")', 'doc': f'name(doc("{s}")/*)', 'same': f'doc("{s}") is doc("{other}")',
                 'docuri': f'string(document-uri(doc("{s}")))', 'rootback': f'root(doc("{s}")//x) is doc("{other}")'}[f]
+    if kind == 'coll':
+        return {'ccount': 'count(collection("c1"))', 'cnames': f'for $d in collection("{BASE}c1") return name($d/*)',
+                'cmissing': 'count(collection("c2"))', 'dcount': 'count(collection())', 'dempty': 'count(collection(()))'}[q[1]]
+    if kind == 'colldoc':
+        _, f, u = q
+        return {'cisdoc': f'collection("c1")[name(*) = "{u}"] is doc("{u}.xml")',
+                'cunion': f'count(collection("c1") | doc("{BASE}{u}.xml"))'}[f]
     _, f, u, v = q
     a, b = spell('rel', u), spell('abs', v)
     return {'is': f'doc("{a}") is doc("{b}")',
@@ -43,11 +50,21 @@ def expected(q, ans):
         return ('err', 'FODC0002')
     if ans in ('true', 'false'):
         return ans == 'true'
+    if ans == 'empty':
+        return []
+    if isinstance(ans, tuple) and ans[0] == 'n':
+        return ans[1]
+    if isinstance(ans, tuple) and ans[0] == 'set':
+        return sorted(ans[1])
     if q[0] == 'ask' and q[1] == 'docuri':
         return f'{BASE}{ans}.xml'
     if q[0] == 'pair' and q[1] == 'count':
         return int(ans)
     return ans
+
+
+class _Done(Exception):
+    pass
 
 
 def walk(job):
@@ -70,32 +87,44 @@ def walk(job):
     root = mkdoc('r')
     for path in paths:
         pool = {}                                  # the caller keeps its document objects across contexts
-        for docs, q, ans in path:
-            if q[0] not in ('ask', 'pair'):
+        for docs, coll, dflt, q, ans in path:
+            if q[0] not in ('ask', 'pair', 'coll', 'colldoc'):
                 continue
             expr = expr_of(q)
             tok = tokens.get(expr)
             if tok is None:
                 tok = tokens[expr] = parser.parse(expr)
             mapping = {f'{BASE}{u}.xml': pool.setdefault(u, mkdoc(u)) for u in docs}
+            kw = {}
+            if coll != 'undef':
+                kw['collections'] = {f'{BASE}c1': [pool.setdefault(u, mkdoc(u)) for u in sorted(coll)]}
+            if dflt != 'undef':
+                kw['default_collection'] = [pool.setdefault(u, mkdoc(u)) for u in sorted(dflt)]
             try:
-                val = tok.evaluate(elementpath.XPathContext(root, documents=mapping))
+                val = tok.evaluate(elementpath.XPathContext(root, documents=mapping, **kw))
+                if q[0] == 'coll' and q[1] == 'cnames':
+                    val = sorted(val) if isinstance(val, list) else [val]
+                    raise _Done(val)
                 if isinstance(val, list) and len(val) == 1:
                     val = val[0]
-                got = val if isinstance(val, (bool, int, str)) else ('value', repr(val))
+                got = val if isinstance(val, (bool, int, str)) or val == [] else ('value', repr(val))
                 if isinstance(val, float) and val == int(val):
                     got = int(val)
+            except _Done as d:
+                got = d.args[0]
             except elementpath.ElementPathError as e:
                 got = ('err', (getattr(e, 'code', '') or '').split(':')[-1])
             except Exception as e:  # noqa: BLE001
                 got = ('escaped', type(e).__name__)
             want = expected(q, ans)
+            if ans == 'either':
+                want = got if got in ([], ('err', 'FODC0002')) else 'empty sequence or FODC0002'
             out.append((got == want, lib, version, sorted(docs), list(q), expr, want, got))
     return out
 
 
 def run(chk: core.Check) -> None:
-    consts = {'Uris': {'a', 'b'} if chk.tier == 'quick' else {'a', 'b', 'c'}, 'MaxSteps': 4 if chk.tier == 'quick' else 4}
+    consts = {'Uris': {'a', 'b'} if chk.tier == 'quick' else {'a', 'b', 'c'}, 'MaxSteps': 4 if chk.tier == 'quick' else 3}
     wd = os.path.join(chk.scratch, 'res')
     dot = os.path.join(wd, 'g.dot')
     r = tla.require_ok(tla.run_tlc('Resources', tla.cfg_text(consts, invariants=INVS), wd, dump_dot=dot, coverage=True),
@@ -123,7 +152,9 @@ def run(chk: core.Check) -> None:
 
     def state_rec(sid):
         st = g.states[sid]
-        return (sorted(st['docs']), tuple(st['q']), st['ans'])
+        coll = 'undef' if '#undef' in st['coll'] else sorted(st['coll'])
+        dflt = 'undef' if '#undef' in st['dflt'] else sorted(st['dflt'])
+        return (sorted(st['docs']), coll, dflt, tuple(st['q']), st['ans'])
     has_child = set(parent.values())
     paths = []
     for sid in order:
@@ -144,6 +175,7 @@ def run(chk: core.Check) -> None:
     n = bad = 0
     for out in core.pool_map(walk, jobs):
         for ok, lib, version, docs, q, expr, want, got in out:
+            q = list(q) + ['', '', '']
             n += 1
             if not ok:
                 bad += 1
@@ -151,7 +183,7 @@ def run(chk: core.Check) -> None:
                 chk.fail({'family': 'resources', 'form': form, 'lib': lib, 'version': version,
                           'expected': 'err' if isinstance(want, tuple) else 'value',
                           'observed': got[0] if isinstance(got, tuple) else 'value',
-                          'same_uri': q[0] == 'pair' and q[2] == q[3], 'spelling': q[2] if q[0] == 'ask' else 'rel+abs'},
+                          'same_uri': q[0] == 'pair' and q[2] == q[3], 'spelling': q[2] if q[0] == 'ask' else 'rel+abs', 'qkind': q[0]},
                          {'docs': docs, 'expr': expr, 'lib': lib, 'version': version}, want, got, f'{form} over documents {docs}')
             elif n % 5000 == 1:
                 chk.sample({'docs': docs, 'expr': expr, 'lib': lib, 'version': version, 'value': got})
